@@ -257,6 +257,7 @@ impl Ev {
                 let w = self.fresh();
                 G::Conde(vec![vec![G::Eq(a[0].clone(), T::cons(T::I(1), w.clone()))], vec![G::Eq(a[1].clone(), T::cons(T::I(2), w))]])
             }
+            "botho" => G::Conj(vec![G::Eq(a[0].clone(), a[1].clone()), G::Eq(a[2].clone(), a[0].clone())]),
             "twiceo" => G::Conj(vec![G::Call("cello".into(), a.to_vec()), G::Call("cello".into(), a.to_vec())]),
             other => panic!("unknown user relation {}", other),
         }
